@@ -102,13 +102,16 @@ class Plane:
         """
         return self.plane[3]
     
-    def contains(self, p, tol=10*_eps):
+    def contains(self, p, tol=1e-9):
         """
         
         :param p: A 3D point
         :type p: 3-element array_like
         :param tol: Tolerance on the distance of the point from the plane, relative to the
-            magnitude of the coordinates (at least 1), defaults to 10*_eps
+            magnitude of the coordinates (at least 1), defaults to 1e-9.  (A
+            plane through three points is determined to about eps / sin(angle
+            of the triangle): a tolerance at rounding level rejects the points
+            a thin triangle's plane was built from.)
         :type tol: float, optional
         :return: if the point is in the plane
         :rtype: bool
